@@ -22,7 +22,7 @@
 // call sequences of any length; only the byte length of the open buffer is bounded.
 // ---------------------------------------------------------------------------------------------
 
-use crate::schema::self_referential::__verif_schema_helper::{mk_schema_static, NODES_ARRAY_LONG, NODES_LONG};
+use crate::schema::self_referential::__verif_schema_helper::{mk_schema_static, NODES_LONG};
 use std::mem::ManuallyDrop;
 use crate::ser::DatumSerializer;
 
@@ -288,22 +288,10 @@ fn c15_serialize_ok_step() {
 	std::mem::forget(r);
 }
 
-/// A value that writes one array block header and one element, then fails on the second element
-struct FailsAfterSomeBytes;
-impl Serialize for FailsAfterSomeBytes {
-	fn serialize<S: serde::Serializer>(&self, s: S) -> Result<S::Ok, S::Error> {
-		use serde::ser::SerializeSeq;
-		let mut seq = s.serialize_seq(Some(2))?;
-		seq.serialize_element(&7i64)?;
-		seq.serialize_element(&())?; // a unit is not a long: rejected after 2 bytes were written
-		seq.end()
-	}
-}
-
 //@ harness: c15_serialize_failing_value_step
 //@   props: C15
 //@   tier: quick
-//@   kind: bounded(open buffer <= 3 bytes; schema array<long>; the failing value writes 2 bytes (block header + first element) before its second element is rejected)
+//@   kind: bounded(open buffer <= 3 bytes; the failing value has written k <= 3 arbitrary bytes when it fails)
 //@   fn: object_container_file_encoding::writer::{Writer::serialize, WriterInner::serialize} error path (`truncate(buf_len_before_attempt)`)
 //@   domain: any quiescent wf state with approx_block_size > buffer length
 //@   post: Err is returned; the open buffer is byte-for-byte what it was, the element count is unchanged, nothing reached the sink, nothing is pending: the failed value contributes no bytes and no count
@@ -313,13 +301,18 @@ impl Serialize for FailsAfterSomeBytes {
 #[kani::stub(stdpanic::catch_unwind, model_catch_unwind)]
 #[kani::stub(CompressionCodecState::encode, CompressionCodecState::verif_encode_null_only)]
 #[kani::stub(core::fmt::write, stub_fmt_write)]
+#[kani::stub(vectored_write_polyfill::write_all_vectored, contract_write_all_vectored)]
+#[kani::stub(DatumSerializer::serialize_union_unnamed, DatumSerializer::verif_unreachable_union_arm)]
 fn c15_serialize_failing_value_step() {
 	let p = any_wf_state();
 	kani::assume((p.len as u32) < p.approx); // no flush before the attempt (that case is c15_serialize_ok_step's first half)
-	let schema = mk_schema_static(&NODES_ARRAY_LONG, [0; 8]);
+	let schema = mk_schema_static(&NODES_LONG, [0; 8]);
 	let mut cfg = ManuallyDrop::new(SerializerConfig::new(&schema));
 	let mut w = ManuallyDrop::new(writer_in_state(&p, &mut cfg, GhostSink));
-	let r = w.serialize(FailsAfterSomeBytes);
+	let k: usize = kani::any();
+	kani::assume(k <= 3);
+	kani::cover!(k == 3, "COV three junk bytes to truncate");
+	let r = w.serialize(crate::ser::__verif_ser_cells::PartialThenFail { junk: kani::any(), k });
 	assert!(r.is_err(), "OBL C15.serialize_failure.error_is_returned");
 	let open = w.inner.serializer_state.writer();
 	kani::cover!(p.len == 3, "COV non-empty open block preserved");
